@@ -163,3 +163,23 @@ func (r *Runner) MineChained(parent int) (id int, ok bool, err error) {
 	r.Chained++
 	return id, true, nil
 }
+
+// OfferConversions hands n small Quai->Qi conversions (plain transfers to own-zone Qi addresses) to the pool.
+func (r *Runner) OfferConversions(n int) int {
+	e := r.E
+	ok := 0
+	for i := 0; i < n; i++ {
+		from := e.Quai[r.R.Intn(len(e.Quai))]
+		to := e.Qi[r.R.Intn(len(e.Qi))].Addr
+		amt := new(big.Int).Mul(big.NewInt(int64(30+r.R.Intn(30))), big.NewInt(1e18)) // well above the minimum conversion amount
+		tx, err := wallet.QuaiTx(e.Signer, e.ChainID, from, r.stateNonce(from)+r.quaiNonce[from.Addr], &to, amt, 400000, r.gasPrice(), nil)
+		if err != nil {
+			continue
+		}
+		if err := e.AddTx(tx); err == nil {
+			r.quaiNonce[from.Addr]++
+			ok++
+		}
+	}
+	return ok
+}
